@@ -468,7 +468,7 @@ func addHTTP(m map[string]Intrinsic) {
 			f := append([]Value(nil), sv.F...)
 			for i := range f {
 				if _, isStr := f[i].(StrV); isStr {
-					n := vm.choose(2) // empty or one symbolic byte: enough to tell "" from non-empty
+					n := vm.chooseLogged(2) // empty or one symbolic byte: enough to tell "" from non-empty
 					f[i] = strFromBytes(vm.symBytes(n, "string"))
 				}
 			}
